@@ -65,7 +65,7 @@ def run(ctx):
     # what the styles are) the runs would depend on where a chunk ends, since the end of a chunk flushes the pending text too
     from rules import C07
     rep.guarded("emit", C07.FN + "csi_dispatch", lambda: C07.rule_emit(facts, rep))
-    for r, n in (("S1", 7), ("S2", 8), ("owned-state", 9), ("same-start", 6), ("byte-at-a-time", 6), ("W1", 4), ("through", 7), ("who-writes", 3), ("S5", 12), ("S6", 5), ("S3", 2), ("S4", 3), ("between-slices", 1), ("emit", 9)):
+    for r, n in (("S1", 7), ("S2", 8), ("owned-state", 9), ("same-start", 6), ("byte-at-a-time", 6), ("W1", 7), ("through", 7), ("who-writes", 3), ("S5", 12), ("S6", 5), ("S3", 2), ("S4", 3), ("between-slices", 1), ("emit", 9)):
         rep.floor(r, n)
 
 
